@@ -44,6 +44,9 @@ func bucketOf(key []byte, bits uint8) uint32 {
 }
 
 func (e *c08Engine) Exec(op *Op) string {
+	if e.idx == nil && op.Name != "ixopen" {
+		return "bad-op"
+	}
 	switch op.Name {
 	case "ixopen":
 		bits, _ := strconv.Atoi(op.Arg("bits"))
